@@ -579,10 +579,14 @@ def discrete_SIR(G, test_transmission=_simple_test_transmission_, args=(), test_
                 node_history[node] = ([tmin], ['R'])
     
     N=G.order()
+    if initial_recovereds is None:
+        nR0 = 0
+    else:
+        nR0 = len(initial_recovereds)
     t = [tmin]
-    S = [N-len(initial_infecteds)]
+    S = [N-len(initial_infecteds)-nR0]
     I = [len(initial_infecteds)]
-    R = [0]
+    R = [nR0]
     
     susceptible = defaultdict(lambda: True)  
     #above line is equivalent to u.susceptible=True for all nodes.
@@ -594,10 +598,10 @@ def discrete_SIR(G, test_transmission=_simple_test_transmission_, args=(), test_
             susceptible[u] = False
         
     infecteds = set(initial_infecteds)
-    totR= 0
+    totR= nR0
     nI = len(initial_infecteds)
-    nR = 0
-    nS = N - nI
+    nR = nR0
+    nS = N - nI - nR0
     
     while infecteds and t[-1]<tmax:
         new_infecteds = set()
